@@ -1,3 +1,4 @@
-import GoNeat.Proofs.EpochRegistry
-#print axioms GoNeat.C03.reproduceOne_shape
-#print axioms GoNeat.C03.mate_from
+import GoNeat.Model.Epoch
+open GoNeat
+#check @goInsertionSort.go
+#print goInsertionSort
